@@ -396,6 +396,53 @@ class Sim:
         if err:
             raise err[0]
 
+    def op_incall_both(self, roots, k):
+        """The probe is activated and deactivated again from inside the k-th activation of one and
+        the same call: nothing is delivered, and nothing of it may be left behind when the
+        enclosing calls return."""
+        if self.phase != "new":
+            return self.op_call(roots)
+        roots = copy.deepcopy(roots)
+        nodes = []
+
+        def walk(n):
+            nodes.append(n)
+            for c in n["pre"] + n["post"]:
+                walk(c)
+
+        for r in roots:
+            walk(r)
+        host = nodes[k % len(nodes)]
+        host["pre"].insert(0, {"id": 992, "fn": "cb", "u0": 9921, "w0": 9925, "ru": None, "rw": None, "pre": [],
+                               "post": [], "via": False, "catch": False, "raises": False, "ret": 9929})
+        trace = M.simulate(roots)
+        reached = any(b.act.fn == "cb" for b in trace.binds)
+        if self.bg is not None:
+            self.bg_expected.extend(e for g in M.immediate_events(BG, trace) for e in g)
+        if self.bg2 is not None:
+            self.bg2_expected.extend(e for g in M.immediate_events(BG2, trace) for e in g)
+        if self.events_of(trace):
+            self.flags.add("events-outside")
+        err = []
+
+        def cb_fn(node):
+            try:
+                self.op_activate("with")
+                self.op_deactivate(False)
+                self.flags.add("activated-and-deactivated-inside-one-call")
+            except BaseException as e:  # noqa
+                err.append(e)
+            return node["ret"]
+
+        F.DISPATCH["cb"] = cb_fn
+        try:
+            F.drive(roots)
+        finally:
+            F.DISPATCH.pop("cb", None)
+        if err:
+            raise err[0]
+        assert reached == (self.phase == "done")
+
     def op_call(self, roots):
         trace = M.simulate(roots)
         ev = self.events_of(trace)
@@ -562,6 +609,11 @@ def make_machine(rec):
             self._do(("deactivate", by_exc, via))
 
         @precondition(lambda self: self.sim.phase == "new")
+        @rule(roots=plans, k=st.integers(0, 5))
+        def incall_both(self, roots, k):
+            self._do(("incall_both", roots, k))
+
+        @precondition(lambda self: self.sim.phase == "new")
         @rule(roots=plans, k=st.integers(0, 5), how=st.sampled_from(["with", "global"]), with_bg=st.booleans())
         def incall_act(self, roots, k, how, with_bg):
             self._do(("incall_act", roots, k, how, with_bg))
@@ -614,6 +666,8 @@ def _brief(op):
         return ["call", T.plan_brief(op[1])]
     if op[0] == "incall":
         return ["incall", T.plan_brief(op[1]), op[2], op[3]]
+    if op[0] == "incall_both":
+        return ["incall_both", T.plan_brief(op[1]), op[2]]
     if op[0] == "incall_act":
         return ["incall_act", T.plan_brief(op[1]), op[2], op[3], op[4]]
     return list(op)
